@@ -81,6 +81,9 @@ var stdoutFns = map[string]bool{
 
 // classifyExternal classifies a function outside the module by its full name.
 func classifyExternal(f *ssa.Function) Effect {
+	if f.Synthetic == "package initializer" {
+		return EffPure
+	}
 	name := f.String()
 	// instantiations and wrappers: normalise "(*T).M$bound" etc.
 	name = strings.TrimSuffix(name, "$bound")
